@@ -221,9 +221,13 @@ func (g *graphMemoizer) Objects(ctx context.Context, s *node.Node, p *predicate.
 		}
 	}
 	wg.Wait()
-	g.mu.Lock()
-	g.memO[k] = mobjs
-	g.mu.Unlock()
+	if err == nil {
+		// Only complete results are memoized: a lookup that failed may have
+		// delivered a truncated stream.
+		g.mu.Lock()
+		g.memO[k] = mobjs
+		g.mu.Unlock()
+	}
 	return err
 }
 
@@ -290,9 +294,13 @@ func (g *graphMemoizer) Subjects(ctx context.Context, p *predicate.Predicate, o 
 		}
 	}
 	wg.Wait()
-	g.mu.Lock()
-	g.memN[k] = msubs
-	g.mu.Unlock()
+	if err == nil {
+		// Only complete results are memoized: a lookup that failed may have
+		// delivered a truncated stream.
+		g.mu.Lock()
+		g.memN[k] = msubs
+		g.mu.Unlock()
+	}
 	return err
 }
 
@@ -349,9 +357,13 @@ func (g *graphMemoizer) PredicatesForSubject(ctx context.Context, s *node.Node, 
 		}
 	}
 	wg.Wait()
-	g.mu.Lock()
-	g.memP[k] = mpreds
-	g.mu.Unlock()
+	if err == nil {
+		// Only complete results are memoized: a lookup that failed may have
+		// delivered a truncated stream.
+		g.mu.Lock()
+		g.memP[k] = mpreds
+		g.mu.Unlock()
+	}
 	return err
 }
 
@@ -408,9 +420,13 @@ func (g *graphMemoizer) PredicatesForObject(ctx context.Context, o *triple.Objec
 		}
 	}
 	wg.Wait()
-	g.mu.Lock()
-	g.memP[k] = mpreds
-	g.mu.Unlock()
+	if err == nil {
+		// Only complete results are memoized: a lookup that failed may have
+		// delivered a truncated stream.
+		g.mu.Lock()
+		g.memP[k] = mpreds
+		g.mu.Unlock()
+	}
 	return err
 }
 
@@ -467,9 +483,13 @@ func (g *graphMemoizer) PredicatesForSubjectAndObject(ctx context.Context, s *no
 		}
 	}
 	wg.Wait()
-	g.mu.Lock()
-	g.memP[k] = mpreds
-	g.mu.Unlock()
+	if err == nil {
+		// Only complete results are memoized: a lookup that failed may have
+		// delivered a truncated stream.
+		g.mu.Lock()
+		g.memP[k] = mpreds
+		g.mu.Unlock()
+	}
 	return err
 }
 
@@ -526,9 +546,13 @@ func (g *graphMemoizer) TriplesForSubject(ctx context.Context, s *node.Node, lo 
 		}
 	}
 	wg.Wait()
-	g.mu.Lock()
-	g.memT[k] = mts
-	g.mu.Unlock()
+	if err == nil {
+		// Only complete results are memoized: a lookup that failed may have
+		// delivered a truncated stream.
+		g.mu.Lock()
+		g.memT[k] = mts
+		g.mu.Unlock()
+	}
 	return err
 }
 
@@ -585,9 +609,13 @@ func (g *graphMemoizer) TriplesForPredicate(ctx context.Context, p *predicate.Pr
 		}
 	}
 	wg.Wait()
-	g.mu.Lock()
-	g.memT[k] = mts
-	g.mu.Unlock()
+	if err == nil {
+		// Only complete results are memoized: a lookup that failed may have
+		// delivered a truncated stream.
+		g.mu.Lock()
+		g.memT[k] = mts
+		g.mu.Unlock()
+	}
 	return err
 }
 
@@ -644,9 +672,13 @@ func (g *graphMemoizer) TriplesForObject(ctx context.Context, o *triple.Object, 
 		}
 	}
 	wg.Wait()
-	g.mu.Lock()
-	g.memT[k] = mts
-	g.mu.Unlock()
+	if err == nil {
+		// Only complete results are memoized: a lookup that failed may have
+		// delivered a truncated stream.
+		g.mu.Lock()
+		g.memT[k] = mts
+		g.mu.Unlock()
+	}
 	return err
 }
 
@@ -703,9 +735,13 @@ func (g *graphMemoizer) TriplesForSubjectAndPredicate(ctx context.Context, s *no
 		}
 	}
 	wg.Wait()
-	g.mu.Lock()
-	g.memT[k] = mts
-	g.mu.Unlock()
+	if err == nil {
+		// Only complete results are memoized: a lookup that failed may have
+		// delivered a truncated stream.
+		g.mu.Lock()
+		g.memT[k] = mts
+		g.mu.Unlock()
+	}
 	return err
 }
 
@@ -762,9 +798,13 @@ func (g *graphMemoizer) TriplesForPredicateAndObject(ctx context.Context, p *pre
 		}
 	}
 	wg.Wait()
-	g.mu.Lock()
-	g.memT[k] = mts
-	g.mu.Unlock()
+	if err == nil {
+		// Only complete results are memoized: a lookup that failed may have
+		// delivered a truncated stream.
+		g.mu.Lock()
+		g.memT[k] = mts
+		g.mu.Unlock()
+	}
 	return err
 }
 
@@ -836,8 +876,12 @@ func (g *graphMemoizer) Triples(ctx context.Context, lo *storage.LookupOptions, 
 		}
 	}
 	wg.Wait()
-	g.mu.Lock()
-	g.memT[k] = mts
-	g.mu.Unlock()
+	if err == nil {
+		// Only complete results are memoized: a lookup that failed may have
+		// delivered a truncated stream.
+		g.mu.Lock()
+		g.memT[k] = mts
+		g.mu.Unlock()
+	}
 	return err
 }
